@@ -301,6 +301,20 @@ def run(ctx):
                 ctx.violation('correspondence-broken', 'scalar %r (pre3=%s): model %r, implementation %r' % (s, pre3, mr, got),
                               {'component': 'jparse_str', 'scalar': s})
                 corr = True
+    # JSON text handed to parse_scalar (str and bytes) denotes what its decoded form denotes - down to the shortest documents
+    # (a str is taken for JSON text when it starts with " [ { and ends with " ] }; anything else is an already decoded string)
+    for T in ('[]', '{}', '""', '[1]', '[[]]', '[{}]', '{"a":1}', '{"a":[]}', '"s:x"', '"x"', '"m:"', '[ ]', '{ }', '"n:1"', '"s:"', '["s:"]'):
+        for ver in ('3.0', '2.0'):
+            for form in ('str', 'bytes'):
+                ctx.coverage['evaluations'] += 1
+                ctx.count('parse_scalar:json-text')
+                data = T if form == 'str' else T.encode('utf-8')
+                got = codec.impl_result(h.parse_scalar, data, mode=h.MODE_JSON, version=ver)
+                want = codec.impl_result(h.parse_scalar, json.loads(T), mode=h.MODE_JSON, version=ver)
+                if got != want:
+                    ctx.violation('impl-counterexample', 'parse_scalar(%r as %s, version %s) gives %r, the decoded document gives %r' % (T, form, ver, got, want),
+                                  {'scalar_text': T, 'form': form, 'version': ver})
+                    return
     # dense sweep of fractional seconds in times and date-times: every digit count, values at which binary floating
     # point would round differently from the decimal digits
     nfrac = 40000 if thorough else 900
